@@ -176,6 +176,12 @@ def main(argv):
                 res.violation("the evaluator panicked/aborted", {"kind": "impl", "program": defs + a, "observed": r_})
         if ra == rb:
             continue
+        # every / some stop at the first deciding element; all(map(..)) / any(map(..)) evaluate every
+        # element first.  The definitional law (HigherOrder.every_loop_spec: callback total on the list)
+        # applies when the element-wise reference itself succeeds.
+        if d in ("every=conj", "some=disj") and rb.startswith("ERR") and ra.startswith("OK"):
+            kinds[d + "/short-circuit"] = kinds.get(d + "/short-circuit", 0) + 1
+            continue
         # the open finding F23: one form hits the depth limit, the other does not
         if "ERRDEPTH" in (ra, rb) and any(k["id"] == "F23" for k in known):
             f23 += 1
